@@ -189,6 +189,180 @@ def model_run(spec, cfg, tier, tag, workers=8, timeout=1500, must_hold=True, ext
 
 
 # ------------------------------------------------------------------------------------------------
+# the implementation-shaped Storage model: exhaustive runs, sensitivity runs, counterexample replay
+# ------------------------------------------------------------------------------------------------
+STORAGE_ACTIONS = ["Menu", "BeginCompact", "BeginClose", "Drop", "ProcessCrash", "PowerLoss",
+                   "Commit_WalAppendOps", "Commit_WalAppendCommit", "Commit_WalFsync", "Commit_I2eWrite",
+                   "Commit_I2eMetaSync", "Commit_LabelsApplied", "Commit_PublishLabels", "Commit_PublishRun",
+                   "Compact_PersistSegment", "Compact_PagerSync", "Compact_SinkProps", "Compact_StatsAlloc",
+                   "Compact_WalManifest", "Compact_WalFsync", "Compact_Publish", "Close_PagerSync",
+                   "Close_TmpWrite", "Close_TmpSync", "Close_Rename", "Close_WalFsync", "Open"]
+
+NEGATIVE_CFGS = {   # model constants changed away from what the code does: the model must object
+    "MC_StorageNeg_NoFsync": ["DurableP", "PrefixP"],
+    "MC_StorageNeg_NoTruncate": ["DurableP", "PrefixP"],
+    "MC_StorageNeg_NoSegSync": ["PrefixP", "DurableP"],
+    "MC_StorageNeg_NoStatsSync": ["PrefixP", "DurableP"],
+}
+KF_CFGS = {         # operation kinds of the known findings enabled: the model must reproduce them
+    "MC_StorageKF_DelNode": ["KF-01"],
+    "MC_StorageKF_DelEdge": ["KF-02"],
+    "MC_StorageKF_Rem": ["KF-03", "KF-04"],
+    "MC_StorageKF_Label": ["KF-05"],
+    "MC_StorageKF_Recreate": ["KF-06"],
+}
+
+
+def cex_to_history(cex, hid):
+    ops = []
+    for e in cex:
+        if e["op"] == "tx":
+            txo = []
+            for o in e["ops"]:
+                o = list(o)
+                if o[0] == "CreateNode":
+                    o[1] = str(o[1])
+                txo.append(o)
+            ops.append({"op": "tx", "ops": txo})
+        elif e["op"] == "compact":
+            ops.append({"op": "compact"})
+        elif e["op"] == "reopen":
+            ops.append({"op": "reopen", "how": e["how"]})
+    if ops and ops[-1]["op"] != "reopen" and any(e["op"] == "reopen" for e in cex) is False:
+        pass
+    return {"id": hid, "ops": ops}
+
+
+def storage_model(tier, seed):
+    """Exhaustive TLC run of Storage.tla (via StorageMC) with the constants that describe the code."""
+    cfg = "MC_StorageQuick" if tier == "quick" else "MC_StorageClean"
+    r = model_run("StorageMC", cfg, tier, "storage-clean", workers=8, timeout=3000)
+    missing = [a for a in STORAGE_ACTIONS if r["coverage"].get(a, 0) == 0]
+    if missing:
+        raise ToolError("Storage model: actions never taken (vacuous run): %s" % missing)
+    res = {"cfg": cfg, "states": r["states"], "transitions": r["transitions"], "depth": r["depth"],
+           "wall_s": r["wall_s"], "actions_covered": len(STORAGE_ACTIONS), "coverage": r["coverage"]}
+    if tier != "quick":
+        neg = {}
+        for c, expect in NEGATIVE_CFGS.items():
+            n = model_run("StorageMC", c, tier, "storage-" + c, workers=8, timeout=1500, must_hold=False)
+            if n.get("violated") not in expect:
+                raise ToolError("sensitivity run %s: expected one of %s to be violated, got %s" % (c, expect, n.get("violated")))
+            neg[c] = {"violated": n["violated"], "states": n["states"]}
+        res["sensitivity"] = neg
+        kf = {}
+        known = vlib.load_known()
+        for c, ids in KF_CFGS.items():
+            n = model_run("StorageMC", c, tier, "storage-" + c, workers=8, timeout=1500, must_hold=False)
+            if not n.get("violated"):
+                raise ToolError("known-finding run %s: the model no longer reproduces the finding" % c)
+            cex = None
+            out = open(os.path.join(cache_dir("model-storage-" + c, tier, 0), "tlc.out")).read()
+            import re
+            m = re.search(r'<<"CEX", "(\w+)", "(.*)">>', out)
+            if m:
+                cex = json.loads(m.group(2).encode().decode("unicode_escape"))
+            entry = {"violated": n["violated"], "states": n["states"], "cex": cex}
+            if cex:
+                h = cex_to_history(cex, "cex/" + c)
+                if any(e["op"] == "reopen" for e in cex) and cex[-1]["op"] == "reopen":
+                    pass
+                fam = storage_family("plain", tier, seed, histories=[h], tag="cex-" + c)
+                got = sorted({(vlib.match_known(f, known) or {"id": "UNKNOWN"})["id"] for f in fam["findings"]})
+                entry["real_findings"] = got
+                entry["reproduced_on_real_code"] = bool(got) and all(g in ids for g in got)
+            kf[c] = entry
+        res["known_finding_models"] = kf
+    return res
+
+
+def canon_view(d):
+    return json.dumps({k: sorted(json.dumps(t) for t in d.get(k, [])) for k in
+                       ["nodes", "ext", "e2i", "lab", "np1", "npm", "out", "outt", "inn", "innt", "ep1", "epm"]},
+                      sort_keys=True)
+
+
+def script_conformance(fam, tier, tag):
+    """Storage.tla followed along the executed histories: are the real dumps / crash outcomes the
+    ones the implementation-shaped model predicts?  Reported as drift, never as a verdict."""
+    import re
+    cd = os.path.dirname(fam["trace"])
+    outp = os.path.join(cd, "conformance.json")
+    if os.path.exists(outp):
+        return json.load(open(outp))
+    hs = [json.loads(l) for l in open(fam["histories_file"])]
+    limit = 30 if tier == "quick" else 150
+    hs = hs[:limit]
+    sp = os.path.join(cd, "scripts.ndjson")
+    vlib.write_ndjson(sp, hs)
+    md = vlib.workdir("tlc/script-" + tag)
+    env = {"SCRIPTS": sp, "JAVA_TOOL_OPTIONS": "-Xss256m -Xmx8g"}
+    t0 = time.time()
+    p = vlib.sh(["tlc", "-workers", "8", "-metadir", md, "-cleanup", "-noGenerateSpecTE", "-config",
+                 os.path.join(vlib.SPEC, "StorageScript.cfg"), os.path.join(vlib.SPEC, "StorageScript.tla")],
+                cwd=vlib.SPEC, env=env, timeout=3000, check=False)
+    shutil.rmtree(md, ignore_errors=True)
+    out = p.stdout
+    if "Model checking completed. No error has been found." not in out:
+        raise ToolError("script-driven model run failed:\n" + vlib.tail_interesting(out, 40))
+    quies, outc = {}, {}
+    for m in re.finditer(r'<<"(QUIESCENT|OUTCOME)", "(.*)">>', out):
+        rec = json.loads(m.group(2).encode().decode("unicode_escape").encode("latin-1").decode("utf-8", "replace"))
+        key = (rec["sid"], rec["op"])
+        if m.group(1) == "QUIESCENT":
+            quies.setdefault(key, set()).add(canon_view(rec["view"]))
+        else:
+            v = "open-failed" if rec["recov"] == "open-failed" else canon_view(rec["view"])
+            outc.setdefault(key, set()).add(v)
+    ids = {h["id"]: i + 1 for i, h in enumerate(hs)}
+    q_ok = q_bad = c_ok = c_bad = 0
+    seen_out = {}
+    bad_samples = []
+    sid = None
+    last_op = 0
+    with open(fam["trace"]) as fh:
+        for line in fh:
+            e = json.loads(line)
+            if e["ev"] == "reset":
+                sid = ids.get(e["id"])
+                last_op = 0
+            elif sid is None:
+                continue
+            elif e["ev"] in ("tx", "abort", "compact", "checkpoint", "reopen", "create_index", "vacuum"):
+                last_op = e.get("i", last_op)
+            elif e["ev"] == "dump":
+                pv = quies.get((sid, last_op), set())
+                if canon_view(e["d"]) in pv:
+                    q_ok += 1
+                else:
+                    q_bad += 1
+                    if len(bad_samples) < 5:
+                        bad_samples.append({"kind": "quiescent", "sid": sid, "op": last_op})
+            elif e["ev"] == "crash":
+                key = (sid, e["op"])
+                v = "open-failed" if e["open"] != "ok" else canon_view(e["d"])
+                # an image of operation i may also equal the state before it started
+                pv = outc.get(key, set()) | outc.get((sid, e["op"] - 1), set()) | quies.get((sid, e["op"] - 1), set())
+                if v in pv:
+                    c_ok += 1
+                    seen_out.setdefault(key, set()).add(v)
+                else:
+                    c_bad += 1
+                    if len(bad_samples) < 5:
+                        bad_samples.append({"kind": "crash", "sid": sid, "op": e["op"], "site": e.get("site"), "image": e.get("kind")})
+    predicted = sum(len(v) for v in outc.values())
+    observed = sum(len(v & outc.get(k, set())) for k, v in seen_out.items())
+    info = vlib.parse_tlc_stats(out)
+    res = {"scripts": len(hs), "model_states": info.get("distinct", 0), "wall_s": round(time.time() - t0, 1),
+           "quiescent_dumps_predicted": q_ok, "quiescent_dumps_not_predicted": q_bad,
+           "crash_outcomes_predicted": c_ok, "crash_outcomes_not_predicted": c_bad,
+           "model_outcomes": predicted, "model_outcomes_observed_on_real_code": observed,
+           "drift_samples": bad_samples}
+    json.dump(res, open(outp, "w"))
+    return res
+
+
+# ------------------------------------------------------------------------------------------------
 # verdicts
 # ------------------------------------------------------------------------------------------------
 def verdict(prop, findings, trace_path=None, hist_file=None):
@@ -243,11 +417,14 @@ def storage_prop(prop, tier, seed, mode, relevant, level_note, replay=None, mode
         "known_findings_seen": nk,
         "findings_total_all_properties": len(fam["findings"]),
     }
+    if model is None and not replay:
+        model = storage_model(tier, seed)
+    if not replay and mode in ("plain", "crash"):
+        cov["model_conformance_drift_report"] = script_conformance(fam, tier, mode + "-" + tier)
     if model:
         cov["states"] = model["states"]
         cov["transitions"] = model["transitions"]
-        cov["model"] = {k: model[k] for k in ("depth", "wall_s", "never_taken") if k in model}
-        cov["model"]["actions_covered"] = len([a for a, c in model.get("coverage", {}).items() if c > 0])
+        cov["model"] = {k: model[k] for k in ("cfg", "depth", "wall_s", "actions_covered", "sensitivity", "known_finding_models") if k in model}
     else:
         cov["states"] = fam["tlc"].get("distinct", 0)
         cov["transitions"] = fam["tlc"].get("states_generated", 0)
